@@ -216,28 +216,10 @@ func (fi *File) Mode() (os.FileMode, error) {
 }
 
 func (fi *File) SetMode(mode os.FileMode) error {
-	nd, err := fi.GetNode()
-	if err != nil {
-		return err
-	}
-
-	fsn, err := ft.ExtractFSNode(nd)
-	if err != nil {
-		if errors.Is(err, ft.ErrNotProtoNode) {
-			// Wrap raw node in protonode.
-			data := nd.RawData()
-			return fi.setNodeData(ft.FilePBDataWithStat(data, uint64(len(data)), mode, time.Time{}))
-		}
-		return err
-	}
-
-	fsn.SetMode(mode)
-	data, err := fsn.GetBytes()
-	if err != nil {
-		return err
-	}
-
-	return fi.setNodeData(data)
+	return fi.updateMetadata(
+		func(fsn *ft.FSNode) { fsn.SetMode(mode) },
+		func(data []byte) []byte { return ft.FilePBDataWithStat(data, uint64(len(data)), mode, time.Time{}) },
+	)
 }
 
 // ModTime returns the files' last modification time.
@@ -256,31 +238,42 @@ func (fi *File) ModTime() (time.Time, error) {
 
 // SetModTime sets the files' last modification time.
 func (fi *File) SetModTime(ts time.Time) error {
-	nd, err := fi.GetNode()
-	if err != nil {
-		return err
-	}
-
-	fsn, err := ft.ExtractFSNode(nd)
-	if err != nil {
-		if errors.Is(err, ft.ErrNotProtoNode) {
-			// Wrap raw node in protonode.
-			data := nd.RawData()
-			return fi.setNodeData(ft.FilePBDataWithStat(data, uint64(len(data)), 0, ts))
-		}
-		return err
-	}
-
-	fsn.SetModTime(ts)
-	data, err := fsn.GetBytes()
-	if err != nil {
-		return err
-	}
-
-	return fi.setNodeData(data)
+	return fi.updateMetadata(
+		func(fsn *ft.FSNode) { fsn.SetModTime(ts) },
+		func(data []byte) []byte { return ft.FilePBDataWithStat(data, uint64(len(data)), 0, ts) },
+	)
 }
 
-func (fi *File) setNodeData(data []byte) error {
+// updateMetadata replaces the file's node by one with updated UnixFS metadata
+// (mode, mtime). update modifies the metadata of a dag-pb file node; wrapRaw
+// builds the UnixFS data for a raw node, which has to be wrapped in a dag-pb
+// node first.
+//
+// The node is read, rebuilt, stored and installed while holding the node lock.
+// Doing the read and the install in separate steps would let a descriptor that
+// is flushed or closed in between be overwritten with a node that still has the
+// previous content, losing the write.
+func (fi *File) updateMetadata(update func(*ft.FSNode), wrapRaw func([]byte) []byte) error {
+	fi.nodeLock.Lock()
+
+	var data []byte
+	fsn, err := ft.ExtractFSNode(fi.node)
+	if err != nil {
+		if !errors.Is(err, ft.ErrNotProtoNode) {
+			fi.nodeLock.Unlock()
+			return err
+		}
+		// Wrap raw node in protonode.
+		data = wrapRaw(fi.node.RawData())
+	} else {
+		update(fsn)
+		data, err = fsn.GetBytes()
+		if err != nil {
+			fi.nodeLock.Unlock()
+			return err
+		}
+	}
+
 	nd := dag.NodeWithData(data)
 
 	// Preserve the previous node's links (file content blocks) and
@@ -293,8 +286,9 @@ func (fi *File) setNodeData(data []byte) error {
 		}
 	}
 
-	err := fi.dagService.Add(context.TODO(), nd)
+	err = fi.dagService.Add(context.TODO(), nd)
 	if err != nil {
+		fi.nodeLock.Unlock()
 		return err
 	}
 
@@ -305,10 +299,12 @@ func (fi *File) setNodeData(data []byte) error {
 		}
 	}
 
-	fi.nodeLock.Lock()
 	fi.node = nd
 	parent := fi.parent
 	name := fi.name
 	fi.nodeLock.Unlock()
-	return parent.updateChildEntry(child{name, fi.node})
+
+	// Propagate without holding the node lock: the parent directory takes its
+	// own lock and, while holding it, reads the nodes of its cached children.
+	return parent.updateChildEntry(child{name, nd})
 }
